@@ -159,7 +159,8 @@ def run(thorough, seed):
             allow_mode = vi % 3   # none / one / many
             me = str(uuid.UUID(int=rnd.getrandbits(128), version=4))
             others = [str(uuid.UUID(int=rnd.getrandbits(128), version=4)) for _ in range(9)]
-            allow = None if allow_mode == 0 else ([me] if allow_mode == 1 else others[:4] + [me] + others[4:8])
+            me2 = str(uuid.UUID(int=rnd.getrandbits(128), version=4))
+            allow = None if allow_mode == 0 else ([me] if allow_mode == 1 else others[:4] + [me, me2] + others[4:8])
             outsider = others[8]
             D = days_values[vi % len(days_values)]
             ddir = os.path.join(base, "d%d" % vi)
@@ -221,6 +222,19 @@ def run(thorough, seed):
                 have_db = any(f.endswith(".sqlite3") for f in os.listdir(ddir))
                 if not have_db:
                     viol("no database file in the configured data directory %s (found %s; the process's working directory now holds %s)" % (ddir, os.listdir(ddir), os.listdir(cwd)), pr, trace)
+                # (3b) a second client whose chain starts from a NON-NIL base and whose snapshot sits at that base (an id that is no
+                # stored version): what it is served now is what it must be served after every restart
+                base2, snap2, first2 = str(uuid.UUID(int=rnd.getrandbits(128), version=4)), None, None
+                if allow is None or me2 in allow:
+                    st, hd, _ = add_version(addr, me2, base2, b"on-a-foreign-base")
+                    requests[0] += 1
+                    if st == 200:
+                        first2 = hd.get("x-version-id")
+                        req(addr, "POST", "/v1/client/add-snapshot/" + base2, me2, b"snapshot-at-the-base", SN)
+                        st, hd, data = req(addr, "GET", "/v1/client/snapshot", me2)
+                        requests[0] += 2
+                        if st == 200:
+                            snap2 = (hd.get("x-version-id"), data)
                 # (4) snapshot-versions target: snapshot at the latest version, then count
                 st, _, _ = req(addr, "POST", "/v1/client/add-snapshot/" + parent, me, b"snap", SN)
                 requests[0] += 1
@@ -306,6 +320,16 @@ def run(thorough, seed):
                             parent = hd["x-version-id"]
                             if urgency(hd) != expect:
                                 viol("snapshot-days=%d configured and the snapshot is %d days old, but AddVersion reports urgency %s (expected %s)" % (D, d_age, urgency(hd), expect), pr2, trace2)
+                        if first2 is not None:
+                            st, hd, data = req(addr, "GET", "/v1/client/get-child-version/" + base2, me2)
+                            requests[0] += 1
+                            if st != 200 or hd.get("x-version-id") != first2 or data != b"on-a-foreign-base":
+                                viol("after kill -9 and restart, the first version of the client whose chain starts at the non-nil base %s is answered %d" % (base2, st), pr2, trace2)
+                        if snap2 is not None:
+                            st, hd, data = req(addr, "GET", "/v1/client/snapshot", me2)
+                            requests[0] += 1
+                            if st != 200 or (hd.get("x-version-id"), data) != snap2:
+                                viol("before the restart GetSnapshot of client %s answered the snapshot at %s (%d bytes); after kill -9 and restart on the same data directory it answers %d %s" % (me2, snap2[0], len(snap2[1]), st, hd.get("x-version-id")), pr2, trace2)
                         # the whole acknowledged history is served after the kills and restarts
                         for (par, ver, body) in acked:
                             st, hd, data = req(addr, "GET", "/v1/client/get-child-version/" + par, me)
